@@ -1107,10 +1107,12 @@ class MoneyConverter:
         # create all rates before changing anything, so that an invalid rate
         # spec does not result in a partial update
         base_currency = self._base_currency
-        rates = [((validity, term_currency),
-                  ExchangeRate(base_currency, unit_multiple, term_currency,
-                               term_amount))
-                 for term_currency, term_amount, unit_multiple in rate_specs]
+        new_rates = [ExchangeRate(base_currency, unit_multiple, term_currency,
+                                  term_amount)
+                     for term_currency, term_amount, unit_multiple in rate_specs]
+        # use the rate's currency (not the one given, which may be an ISO
+        # code) as key, because that is what is looked up
+        rates = [((validity, rate.term_currency), rate) for rate in new_rates]
         # update internal dict
         self._type_of_validity = type(validity)
         self._rate_dict.update(rates)
